@@ -2370,6 +2370,28 @@ func marshalSANs(dnsNames, emailAddresses []string, ipAddresses []net.IP) (derBy
 	return asn1.Marshal(rawValues)
 }
 
+// ipAndMask returns the iPAddress form of a name constraint: the address
+// followed by the mask, both 4 or both 16 bytes long. As in marshalSANs an
+// IPv4 address held in 16-byte form is written in 4 bytes when the mask is an
+// IPv4 mask (and a 4-byte address is widened for a 16-byte mask). The result
+// never aliases the template's slices.
+func ipAndMask(ipNet net.IPNet) []byte {
+	ip := ipNet.IP
+	switch len(ipNet.Mask) {
+	case net.IPv4len:
+		if ip4 := ip.To4(); ip4 != nil {
+			ip = ip4
+		}
+	case net.IPv6len:
+		if ip16 := ip.To16(); ip16 != nil {
+			ip = ip16
+		}
+	}
+	ret := make([]byte, 0, len(ip)+len(ipNet.Mask))
+	ret = append(ret, ip...)
+	return append(ret, ipNet.Mask...)
+}
+
 // NOTE ignoring authorityKeyID argument
 func buildExtensions(template *Certificate, _ []byte) (ret []pkix.Extension, err error) {
 	ret = make([]pkix.Extension, 10 /* Max number of elements. */)
@@ -2541,12 +2563,10 @@ func buildExtensions(template *Certificate, _ []byte) (ret []pkix.Extension, err
 			out.Excluded = append(out.Excluded, generalSubtree{Value: asn1.RawValue{Tag: 4, Class: 2, IsCompound: true, Bytes: dn}})
 		}
 		for _, permitted := range template.PermittedIPAddresses {
-			ip := append(permitted.Data.IP, permitted.Data.Mask...)
-			out.Permitted = append(out.Permitted, generalSubtree{Value: asn1.RawValue{Tag: 7, Class: 2, Bytes: ip}})
+			out.Permitted = append(out.Permitted, generalSubtree{Value: asn1.RawValue{Tag: 7, Class: 2, Bytes: ipAndMask(permitted.Data)}})
 		}
 		for _, excluded := range template.ExcludedIPAddresses {
-			ip := append(excluded.Data.IP, excluded.Data.Mask...)
-			out.Excluded = append(out.Excluded, generalSubtree{Value: asn1.RawValue{Tag: 7, Class: 2, Bytes: ip}})
+			out.Excluded = append(out.Excluded, generalSubtree{Value: asn1.RawValue{Tag: 7, Class: 2, Bytes: ipAndMask(excluded.Data)}})
 		}
 		ret[n].Value, err = asn1.Marshal(out)
 		if err != nil {
